@@ -5,7 +5,7 @@ PENDING = {
 }
 TEXT = {
  "C20": {
-  "level": "Theorems over the integer-nanosecond model of engine.go for every period, sub-slot configuration and sequence of clock readings (no bound): a pulse fires with the next boundary of Go's time grid; every engine stamp is a multiple of the sub-period and stamps never decrease when the clock does not; in the stop protocol at most the call already in flight completes after Stop, for every schedule. The model is tied to the code by running the real Engine on scripted clocks and comparing every stamp.",
+  "level": "Composition (C20_wiring.v, over tables regenerated from main.go, host.go and the access node's node.go): each engine is created with the expected function, period, occurrences and skipped occurrences; the host gets the validation timeout as connection timeout; every access-node controller that talks to the validator gets NewNode's own sender. Theorems over the integer-nanosecond model of engine.go for every period, sub-slot configuration and sequence of clock readings (no bound): a pulse fires with the next boundary of Go's time grid; every engine stamp is a multiple of the sub-period and stamps never decrease when the clock does not; in the stop protocol at most the call already in flight completes after Stop, for every schedule. The model is tied to the code by running the real Engine on scripted clocks and comparing every stamp.",
   "ref": "DESIGN.md section 4, C20",
   "note": "trusted: Coq kernel, extraction (ExtrOcamlBasic), harness; time.Ticker and goroutine scheduling are not modelled (readings served are the model's input); timestamps within int64 ns",
   "technique": "Coq proof (arithmetic lemmas + invariant of a small LTS) + differential correspondence with the real Engine",
